@@ -276,6 +276,8 @@ func runC19(c *Ctx) {
 		rec := &writeRecorder{}
 		var ferr error
 		var sizes []int
+		var scratch []byte
+		w["write_buffer_reused_and_overwritten"] = i%2 == 1
 		pi := mon.Guard(func() {
 			pw := padding.NewPKCS7PaddingWriter(rec, wc.bs)
 			for off := 0; off < len(padded); {
@@ -299,7 +301,22 @@ func runC19(c *Ctx) {
 					sz = len(padded) - off
 				}
 				sizes = append(sizes, sz)
-				m, err := pw.Write(padded[off : off+sz])
+				chunk := padded[off : off+sz]
+				if i%2 == 1 {
+					// an io.Writer must not keep p: odd cases write from one scratch buffer that is overwritten right after
+					// each Write returns (what a copy loop does)
+					if cap(scratch) < sz {
+						scratch = make([]byte, sz)
+					}
+					chunk = scratch[:sz]
+					copy(chunk, padded[off:off+sz])
+				}
+				m, err := pw.Write(chunk)
+				if i%2 == 1 {
+					for j := range chunk {
+						chunk[j] = 0xEE
+					}
+				}
 				if err != nil || m != sz {
 					ferr = fmt.Errorf("Write(%d bytes) returned (%d,%v)", sz, m, err)
 					return
